@@ -30,14 +30,14 @@ LEVEL_TEXT = ('exact executable Lean model of silk_stereo_quant_pred, of the sym
               'the defined domain [-2^31, 2^31-1-13365]: the search terminates with every index in range (no celt_assert, every '
               'symbol inside its iCDF table), the decoder rebuilds exactly the quantised pair the encoder keeps, the quantiser is '
               'a nearest-level search (error <= 368 inside the span [-13364, 13362], saturation outside); for every index tuple '
-              'the symbol layer can decode the predictors lie in [-26726, 26726] x [-13364, 13362]; tied by exact comparison '
+              'the symbol layer can decode - and for every state of the range decoder - the predictors lie in [-26726, 26726] x [-13364, 13362]; tied by exact comparison '
               '(quantiser, exhaustive decoder, round trip bytes through the real range coder) under ASan/UBSan and plain')
 LEVEL_NOTE = ('trusted: Lean kernel; harness and line protocol; the reading of silk_SMULWB / silk_SMLABB / silk_abs / '
-              'silk_DIV32_16 (OpusModel/SilkParams/Fix.lean conventions); the two nested loops with `goto done` modelled as one '
-              'scan over the visiting order of (i, j)')
+              'silk_DIV32_16 (OpusModel/SilkParams/Fix.lean conventions); the nested-loop transcription (OpusModel/SilkStereoLoops.lean) '
+              'is proved equal to the scan the theorems use, the tie runs the scan form')
 TECHNIQUE = 'Lean 4 theorems over an executable model + differential correspondence + implementation-only search'
 
-REQUIRED_THEOREMS = ['OpusProps.C18Stereo.table_facts', 'OpusProps.C18Stereo.quant_indices_in_range', 'OpusProps.C18Stereo.enc_dec_agree', 'OpusProps.C18Stereo.quant_nearest', 'OpusProps.C18Stereo.quant_error_bound', 'OpusProps.C18Stereo.dequant_in_range', 'OpusProps.C18Stereo.domain_exact']
+REQUIRED_THEOREMS = ['OpusProps.C18Stereo.table_facts', 'OpusProps.C18Stereo.quant_indices_in_range', 'OpusProps.C18Stereo.enc_dec_agree', 'OpusProps.C18Stereo.quant_nearest', 'OpusProps.C18Stereo.quant_error_bound', 'OpusProps.C18Stereo.dequant_in_range', 'OpusProps.C18Stereo.dequant_in_range_any_state', 'OpusProps.C18Stereo.mid_only_flag_binary', 'OpusProps.C18Stereo.nested_loops_are_scan', 'OpusProps.C18Stereo.domain_exact']
 UNPROVED = []
 
 
